@@ -14,7 +14,9 @@ RULE = ("environments of 1-3 shapes of all kinds (simple bounded/unbounded, hole
         "circle) runs in the thorough tier; non-trivial = the operand boundaries cross (>= 2 crossings) or an "
         "operand has a hole / second component, and no operand is Empty/Whole; distinct = SHA-1 of the case")
 PROOF_STATUS = ("Props/C01.v: C01_expressions (all expressions from one-step soundness of | & ~), C01_never_hangs "
-                "(all inputs); one-step soundness of the recombination is the explicit premise (C01_partial)")
+                "(all inputs); C01_cellwise: the value of every expression is a union of cells of the arrangement of the "
+                "operands' boundaries (boundary inclusion + constancy along polylines avoiding them, exact joins decidable per "
+                "instance); which cells: one-step soundness of the recombination is the explicit premise (C01_partial)")
 TRUSTED_EXTRA = ["oracle: exact slab sampling of the edge arrangement + crossing-number regions (harness/oracle.py), cross-checked against the extracted Spec on a sample"]
 
 
